@@ -183,10 +183,9 @@ def check_decoders(rep, tier, rng, drv, run):
         for f in sorted(cdir.glob("*.txt")):
             cases += [l.strip() for l in f.read_text().splitlines() if l.strip() and l.split()[0] in ("sdec", "ldec")]
     cases += dec_cases(rng, tier)
-    impl, p1 = run_sharded(drv, cases)
-    for pr in p1:
-        rep.violation(f"decompressor driver died (rc={pr[1]}), sanitizer report or crash: {pr[2][-700:]}",
-                      {"kind": "dec", "case": pr[3]})
+    impl, deaths = CL.run_all(vlib, drv, cases)
+    for case, rc, summ in deaths:
+        rep.violation(f"decompressor: sanitizer report or crash (rc={rc}) on this input: {summ}", {"kind": "dec", "case": case})
     small = [i for i, c in enumerate(cases) if len(c.split()[2]) <= 2 * MODEL_MAX and int(c.split()[1]) <= 4 * MODEL_MAX]
     model, p2 = run_sharded(run, [cases[i] for i in small])
     for pr in p2:
@@ -253,10 +252,9 @@ def check_compressors(rep, tier, rng, drv, run):
             l = f"{op} 0 {hexs(x)}"
             labels[l] = lab
             lines.append(l)
-    impl, p1 = run_sharded(drv, lines, timeout=1500)
-    for pr in p1:
-        rep.violation(f"compressor driver died (rc={pr[1]}), sanitizer report or crash: {pr[2][-700:]}",
-                      {"kind": "comp", "case": (pr[3] or "")[:100000]})
+    impl, deaths = CL.run_all(vlib, drv, lines, timeout=1500)
+    for case, rc, summ in deaths:
+        rep.violation(f"compressor: sanitizer report or crash (rc={rc}) on this input: {summ}", {"kind": "comp", "case": case})
     small = [i for i, l in enumerate(lines) if len(l.split()[2]) <= 2 * MODEL_MAX]
     model, p2 = run_sharded(run, [lines[i] for i in small])
     for pr in p2:
